@@ -1849,17 +1849,9 @@ fn compare_lines(input: &[(LItem, usize)], out_text: &str) -> Result<(), (String
             ));
         }
         let (il, ol) = (e.unwrap().1 as i64, o.unwrap().line as i64);
-        let mut ok = ol - il == shift;
-        if !ok {
-            if let Some(k) = pending {
-                // CANDIDATE-FINDING C05-1 (known): a block comment between block-level elements that spans k+1 lines pushes
-                // everything behind it down by k lines. Exactly this shift is tolerated, nothing else.
-                if ol - il == shift + k {
-                    shift += k;
-                    ok = true;
-                }
-            }
-        }
+        // C05-1 (= C01-1: a block comment that spans k+1 lines pushed everything behind it down by k lines): repaired in /repo 0e2c007:
+        // no shift is tolerated any more
+        let ok = ol - il == shift;
         pending = None;
         if !ok {
             return Err((
@@ -2211,7 +2203,7 @@ fn vf_driver_c05() {
         let mut lay = c05_layout(&mut rng);
         lay.canonical = canonical;
         if canonical {
-            lay.multiline_kept = false;
+            // C05-1: repaired in /repo 0e2c007: multi-line comments are generated in documents in the writer's own format again
             lay.crlf = false;
         }
         let r = render(&mut rng, &doc.toks, &lay);
@@ -2222,8 +2214,9 @@ fn vf_driver_c05() {
                 if out != r.text {
                     rep.fail("canonical/not-reproduced", "output == input byte for byte", &format!("first difference {}", first_diff(&r.text, &out)), &r.text);
                 }
-            } else if r.multiline_kept == 0 {
+            } else {
                 // (b') the writer's own output is in the writer's format by definition
+                // (C05-1: repaired in /repo 0e2c007: also checked for documents with multi-line comments again)
                 match load_write(&out) {
                     Ok(Ok(out2)) => {
                         if out2 != out {
